@@ -8,9 +8,10 @@ Section C01.
   Variable mredir : str -> str -> option verdict.
   Variable cdres : str -> str -> str.
   Variable injrisk : ctx -> list str -> bool.
-  Notation ev := (ev simple astr mredir cdres injrisk).
-  Notation walk := (walk simple astr mredir cdres injrisk).
-  Notation analyze_nodes := (analyze_nodes simple astr mredir cdres injrisk).
+  Variable rulematch : ctx -> list str -> bool.
+  Notation ev := (ev simple astr mredir cdres injrisk rulematch).
+  Notation walk := (walk simple astr mredir cdres injrisk rulematch).
+  Notation analyze_nodes := (analyze_nodes simple astr mredir cdres injrisk rulematch).
 
   Lemma parse_failclosed c : analyze_nodes c None = Ask /\ analyze_nodes c (Some []) = Ask.
   Proof. split; reflexivity. Qed.
@@ -19,7 +20,7 @@ Section C01.
     forall t, In t ns -> exists c', snd c' = snd c /\ walk c' t = Allow.
   Proof.
     intros H t Ht. destruct ns as [|n0 ns']; [destruct Ht|].
-    unfold Walker.analyze_nodes in H. rewrite (sequence_ctxs simple astr mredir cdres injrisk) in H.
+    unfold Walker.analyze_nodes in H. rewrite (sequence_ctxs simple astr mredir cdres injrisk rulematch) in H.
     apply combine_allow in H. rewrite Forall_map, Forall_forall in H.
     destruct (seq_ctxs_all cdres c (n0 :: ns') t Ht) as [c' Hc'].
     exists c'. split; [exact (seq_ctxs_mode cdres c _ _ Hc')|exact (H (c', t) Hc')].
@@ -35,7 +36,7 @@ Section C01.
     intro H. destruct nodes as [ns|]; [|discriminate]. destruct ns as [|n0 ns']; [discriminate|].
     exists (n0 :: ns'). split; [reflexivity|]. split; [discriminate|].
     intros t Ht n d Hd. destruct (toplevel_all c _ H t Ht) as [c1 [Hm1 Hw1]].
-    destruct (approved_all_nodes simple astr mredir cdres injrisk c1 t Hw1 n d Hd) as [c2 [Hm2 Hw2]].
+    destruct (approved_all_nodes simple astr mredir cdres injrisk rulematch c1 t Hw1 n d Hd) as [c2 [Hm2 Hw2]].
     exists c2. split; [congruence|exact Hw2].
   Qed.
 End C01.
